@@ -9,8 +9,9 @@ EXTENDS BitswapNet, Json, Integers
 
 CONSTANT Devs
 Trace == ndJsonDeserialize("trace.ndjson")
-VARIABLES l, dev
-tvars == <<vars, l, dev>>
+VARIABLES l, dev,
+          rc      \* requests cancelled through their own context (Cancel), as opposed to their session's
+tvars == <<vars, l, dev, rc>>
 ASSUME TLCSet(1, 0)
 
 Ev == Trace[l]
@@ -25,7 +26,7 @@ Blank == /\ adding = [n \in Node |-> [b \in Block |-> 0]]
          /\ wl = [n \in Node |-> {}]
          /\ fresh = [n \in Node |-> FALSE]
 
-TInit == /\ l = 1 /\ dev = {}
+TInit == /\ l = 1 /\ dev = {} /\ rc = {}
          /\ adj = [n \in Node |-> {}] /\ has = [n \in Node |-> {}]
          /\ Blank
 
@@ -42,30 +43,46 @@ TReset == /\ IsEvent("Reset")
           /\ sess' = [s \in Sess |-> NoSess]
           /\ wl' = [n \in Node |-> {}]
           /\ fresh' = [n \in Node |-> FALSE]
-          /\ UNCHANGED dev
+          /\ rc' = {} /\ UNCHANGED dev
 
 TOpenSession == IsEvent("OpenSession") /\ Ev.s \in Sess /\ Ev.node \in Node
-                /\ OpenSession(Ev.s, Ev.node) /\ UNCHANGED dev
+                /\ OpenSession(Ev.s, Ev.node) /\ UNCHANGED <<dev, rc>>
 TRequest == /\ IsEvent("Request") /\ Ev.r \in Req /\ Ev.node \in Node /\ Ev.s \in Sess \cup {0}
             /\ ToSet(Ev.keys) \subseteq Block
-            /\ Request(Ev.r, Ev.node, Ev.s, Ev.kind, Ev.keys) /\ UNCHANGED dev
+            /\ Request(Ev.r, Ev.node, Ev.s, Ev.kind, Ev.keys) /\ UNCHANGED <<dev, rc>>
 TDeliver == /\ IsEvent("Deliver") /\ Ev.r \in Req /\ Ev.b \in Block /\ Ev.from \in Node \cup {0}
             /\ Ev.ok = TRUE                                  \* bytes are the block's bytes (projection)
-            /\ Deliver(Ev.r, Ev.b, Ev.from) /\ UNCHANGED dev
-TCancel == IsEvent("Cancel") /\ Ev.r \in Req /\ Cancel(Ev.r) /\ UNCHANGED dev
-TCancelSession == IsEvent("CancelSession") /\ Ev.s \in Sess /\ CancelSession(Ev.s) /\ UNCHANGED dev
+            /\ Deliver(Ev.r, Ev.b, Ev.from) /\ UNCHANGED <<dev, rc>>
+TCancel == IsEvent("Cancel") /\ Ev.r \in Req /\ Cancel(Ev.r) /\ rc' = rc \cup {Ev.r} /\ UNCHANGED dev
+TCancelSession == IsEvent("CancelSession") /\ Ev.s \in Sess /\ CancelSession(Ev.s) /\ UNCHANGED <<dev, rc>>
 TClose == /\ IsEvent("Close") /\ Ev.r \in Req
           /\ Ev.err = "" \/ rq[Ev.r].canc                    \* an error only after cancellation
-          /\ Close(Ev.r) /\ UNCHANGED dev
-TAddBlock == IsEvent("AddBlock") /\ Ev.node \in Node /\ Ev.b \in Block /\ AddBlock(Ev.node, Ev.b) /\ UNCHANGED dev
-TAddDone == IsEvent("AddDone") /\ Ev.node \in Node /\ Ev.b \in Block /\ AddDone(Ev.node, Ev.b) /\ UNCHANGED dev
+          /\ Close(Ev.r) /\ UNCHANGED <<dev, rc>>
+TAddBlock == IsEvent("AddBlock") /\ Ev.node \in Node /\ Ev.b \in Block /\ AddBlock(Ev.node, Ev.b) /\ UNCHANGED <<dev, rc>>
+TAddDone == IsEvent("AddDone") /\ Ev.node \in Node /\ Ev.b \in Block /\ AddDone(Ev.node, Ev.b) /\ UNCHANGED <<dev, rc>>
 TSnapshot == /\ IsEvent("Snapshot") /\ Ev.node \in Node
              /\ ToSet(Ev.wl) \subseteq Block                 \* an unknown CID is projected to 0
-             /\ Snapshot(Ev.node, ToSet(Ev.wl)) /\ UNCHANGED dev
-TTimeout == IsEvent("Timeout") /\ Ev.r \in Req /\ Timeout(Ev.r) /\ UNCHANGED dev
+             /\ Snapshot(Ev.node, ToSet(Ev.wl)) /\ UNCHANGED <<dev, rc>>
+TTimeout == IsEvent("Timeout") /\ Ev.r \in Req /\ Timeout(Ev.r) /\ UNCHANGED <<dev, rc>>
+
+(* Open finding C37-shared-want-cancel (as built): a session keeps ONE want per key, not one per
+   GetBlocks call.  When a call is cancelled, getter.handleIncoming hands its undelivered keys to the
+   session (opCancel), which drops them from sessionWants / sessionWantSender and withdraws the session's
+   interest -- although a sibling call on the same session still awaits the same key.  The sibling then
+   never receives the block from the network.  Excused only in exactly that constellation. *)
+SharedWantCancelled(r) ==
+    /\ rq[r].s # 0
+    /\ \E c \in rc \ {r} : /\ rq[c].s = rq[r].s
+                            /\ (KeySet(c) \ Got(c)) \cap Awaited(r) # {}
+TTimeoutDev == /\ "Dev_C37_SharedWantCancelled" \in Devs
+               /\ IsEvent("Timeout") /\ Ev.r \in Req
+               /\ Open(Ev.r) /\ Obligated(Ev.r) /\ ~rq[Ev.r].canc
+               /\ SharedWantCancelled(Ev.r)
+               /\ dev' = dev \cup {"Dev_C37_SharedWantCancelled"}
+               /\ UNCHANGED <<vars, rc>>
 
 TNext == \/ TReset \/ TOpenSession \/ TRequest \/ TDeliver \/ TCancel \/ TCancelSession
-         \/ TClose \/ TAddBlock \/ TAddDone \/ TSnapshot \/ TTimeout
+         \/ TClose \/ TAddBlock \/ TAddDone \/ TSnapshot \/ TTimeout \/ TTimeoutDev
 TSpec == TInit /\ [][TNext]_tvars
 
 TraceConstraint == TLCSet(1, IF l - 1 > TLCGet(1) THEN l - 1 ELSE TLCGet(1))
